@@ -92,7 +92,8 @@ def balanced_outward(source: str, pos: int) -> list:
                 push(result, (left[0], end))
             if left:
                 release_range(pool, left)
-            if not stack:
+            if not stack and result:
+                # Left the outermost rule that encloses `pos`: nothing more to find
                 return False
         elif token_type == TokenType.PropertyName:
             if prop[0]:
